@@ -576,6 +576,54 @@ fn op_par(payload: &str, args: &[&str]) -> String {
     first
 }
 
+/// `sweepf32:<T>` — payload "<start> <count>" (decimal): for every bit pattern in the range check
+/// (C18) that `TryFrom<f32>` accepts exactly the finite (UFloat: sign-bit-clear) values and that an
+/// accepted value survives `to_string()` -> `parse` with identical bits, and that the `{:.3}`
+/// rendering used for FRAME-RATE re-parses (UFloat only). Implementation-only oracle.
+/// Answer: `ok <checked> <accepted> <failures> <first failing bits or ->`.
+fn op_sweep_f32(payload: &str, unsigned: bool) -> String {
+    use hls_m3u8::types::{Float, UFloat};
+    let mut it = payload.split(' ');
+    let (start, count) = match (it.next().and_then(|x| x.parse::<u64>().ok()), it.next().and_then(|x| x.parse::<u64>().ok())) {
+        (Some(a), Some(b)) if a + b <= (1u64 << 32) => (a, b),
+        _ => return bad(),
+    };
+    let (mut accepted, mut failures, mut first) = (0u64, 0u64, None);
+    for bits in start..start + count {
+        let bits = bits as u32;
+        let x = f32::from_bits(bits);
+        let should = x.is_finite() && !(unsigned && x.is_sign_negative());
+        let (got, back) = if unsigned {
+            match UFloat::try_from(x) {
+                Ok(v) => (true, v.to_string().parse::<UFloat>().ok().map(|w| w.as_f32().to_bits())),
+                Err(_) => (false, None),
+            }
+        } else {
+            match Float::try_from(x) {
+                Ok(v) => (true, v.to_string().parse::<Float>().ok().map(|w| w.as_f32().to_bits())),
+                Err(_) => (false, None),
+            }
+        };
+        let ok = got == should && (!got || back == Some(bits));
+        if got {
+            accepted += 1;
+        }
+        if !ok {
+            failures += 1;
+            if first.is_none() {
+                first = Some(bits);
+            }
+        }
+    }
+    format!(
+        "ok {} {} {} {}",
+        count,
+        accepted,
+        failures,
+        first.map_or("-".to_string(), |b| format!("{:08x}", b))
+    )
+}
+
 pub fn dispatch(op: &str, payload: &str, args: &[&str]) -> String {
     match op {
         "lines" => return op_lines(payload),
@@ -594,6 +642,8 @@ pub fn dispatch(op: &str, payload: &str, args: &[&str]) -> String {
         "cmpf32:UFloat" => return op_cmpf32_ufloat(payload, args),
         "f32:Float" => return op_f32_float(payload),
         "f32:UFloat" => return op_f32_ufloat(payload),
+        "sweepf32:Float" => return op_sweep_f32(payload, false),
+        "sweepf32:UFloat" => return op_sweep_f32(payload, true),
         "time" => return op_time(payload, args),
         "par" => return op_par(payload, args),
         "build_media" => return crate::builders::op_build_media(payload),
